@@ -1,4 +1,168 @@
 import Tfv.Model
+import Tfv.Proofs.ParseTotal
+/-!
+# C17 — the two stack-machine parsers never fail "internally"
+
+The model of `Language.parse_type` and `Language.parse_expr` (`Tfv/Model/Parse.lean`) returns
+`PErr.internal site` at every place where the Python code could raise something other than
+its declared errors (`AssertionError`, `IndexError` on `stack[-1]`, `stack[1]`, `pop()`, an alias
+index out of range, or the model's own fuel running out).  The theorems below say that none of
+these branches is reachable from the parsers' initial state, whatever the token list is.
+Statements only; proofs are in `Tfv/Proofs/ParseTotal.lean`.
+-/
 namespace Tfv.C17
-theorem placeholder : True := trivial
+open Tfv
+
+/-! ## a concrete language for the non-vacuity examples -/
+
+/-- builtins, a nullary `A`, a unary `F`, a binary `G`, and a unary alias `L x = F(x)` -/
+def exP : PLang :=
+  { types := builtinDecls ++ [⟨"A", [], none⟩, ⟨"F", [true], none⟩, ⟨"G", [true, true], none⟩],
+    aliases := [⟨"L", 1, .app 6 [.var 0]⟩] }
+
+/-! ## 1. the type parser -/
+
+/-- For every language description, both modes (`consumeAll` true: whole input; false: in-line
+mode that stops early), every variable base and every token list, the type parser started in
+its initial state never ends in an internal error: it returns a type or one of the declared
+errors. No hypothesis on the language or on the tokens is needed. -/
+theorem C17_parseType_no_internal (P : PLang) (consumeAll : Bool) (varBase : Nat)
+    (toks : List String) (site : String) :
+    parseTypeLoop P consumeAll varBase {} toks ≠ .error (.internal site) :=
+  parseTypeLoop_no_internal P consumeAll varBase site toks {} (InvT_init P consumeAll)
+
+/-- The same for the entry point `parseTypeToks` (whole-input mode). -/
+theorem C17_parseTypeToks_no_internal (P : PLang) (toks : List String) (varBase : Nat)
+    (site : String) :
+    parseTypeToks P toks varBase ≠ .error (.internal site) :=
+  parseTypeToks_no_internal P toks varBase site
+
+/-- The generalisation that carries the induction: from any state satisfying the loop invariant
+`InvT` (non-empty stack, alias entries in range, and in in-line mode: bottom entry a mark, the
+entry above it a mark or an operator still waiting for parameters, number of marks = 1 + level)
+the parser never ends in an internal error. -/
+theorem C17_parseType_no_internal_inv (P : PLang) (consumeAll : Bool) (varBase : Nat)
+    (s : TState) (hs : InvT P consumeAll s) (toks : List String) (site : String) :
+    parseTypeLoop P consumeAll varBase s toks ≠ .error (.internal site) :=
+  parseTypeLoop_no_internal P consumeAll varBase site toks s hs
+
+/-- the initial state satisfies the invariant (non-vacuity of `C17_parseType_no_internal_inv`) -/
+example : InvT exP false {} := InvT_init exP false
+
+/-- a non-initial state satisfying the in-line invariant: `F (` has been read -/
+example : InvT exP false { stack := [.mark, .op 6, .mark], level := 1, calls := [true] } := by
+  refine ⟨by simp, ?_, fun _ => ⟨by decide, Or.inr ⟨.op 6, ?_, ?_, ?_⟩⟩⟩
+  · intro it hit
+    simp at hit
+    rcases hit with rfl | rfl | rfl <;> trivial
+  · exact ⟨[.mark], rfl⟩
+  · show arityOf exP.types 6 ≠ 0
+    decide
+  · intro h; simp at h
+
+/-- a type that parses: `G(A, L(_))` is `G(A, F(_0))`, one variable created -/
+example : parseTypeToks exP ["G", "(", "A", ",", "L", "(", "_", ")", ")"]
+    = .ok (.app 7 [.app 5 [], .app 6 [.var 0]], 1) := by rfl
+
+/-- declared errors do occur: too many closing brackets give `BracketMismatch` -/
+example : parseTypeToks exP ["A", ")", ")"] = .error .bracketMismatch := by rfl
+
+/-- declared errors do occur: a wrong number of parameters gives `TypeParameterError` -/
+example : parseTypeToks exP ["G", "(", "A", ")"] = .error .typeParameter := by rfl
+
+/-- The invariant is needed: from a stack that the parser itself can never produce in in-line mode
+(an operator above the bottom mark while `level` says a bracket is open) `stack[1]` does fail.
+Such states are unreachable from the initial state, by `C17_parseType_no_internal`. -/
+example : parseTypeLoop exP false 0 { stack := [.op 6, .mark], level := 1 } ["A", ")"]
+    = .error (.internal "stack[1] IndexError") := by rfl
+
+/-- …and from an empty stack `stack[-1]` fails. -/
+example : parseTypeLoop exP true 0 { stack := [] } ["("]
+    = .error (.internal "stack[-1] on empty stack") := by rfl
+
+/-! ## 2. the type parser only consumes -/
+
+/-- What the type parser leaves unread is a suffix of what it was given (from any state, in
+both modes); in particular it is not longer. -/
+theorem C17_parseType_consumes (P : PLang) (consumeAll : Bool) (varBase : Nat) (s : TState)
+    (toks : List String) (t : Term) (k : Nat) (rest : List String)
+    (h : parseTypeLoop P consumeAll varBase s toks = .ok (t, k, rest)) :
+    rest <:+ toks ∧ rest.length ≤ toks.length :=
+  ⟨parseTypeLoop_suffix P consumeAll varBase toks s t k rest h,
+   parseTypeLoop_length P consumeAll varBase toks s t k rest h⟩
+
+/-- in-line mode stops after `F(A)` and leaves the two following tokens (hypothesis satisfiable,
+with a non-empty remainder) -/
+example : parseTypeLoop exP false 0 {} ["F", "(", "A", ")", "x", "y"]
+    = .ok (.app 6 [.app 5 []], 0, ["x", "y"]) := by rfl
+
+/-! ## 3. the expression parser -/
+
+/-- For a builder whose fallible operations (`mkOp`, `mkApp`, `annotate`; `mkSource` cannot fail)
+never fail internally, the expression parser never ends in an internal error, from ANY state
+(an empty stack is answered by `BracketMismatch`), provided the fuel exceeds the number of
+tokens.  This includes the site `"fuel"`: every iteration consumes at least one token. -/
+theorem C17_parseExpr_no_internal {S E : Type} (P : PLang) (B : Builder S E) (hB : BuilderTotal B)
+    (inputs : List E) (defaults : Bool) (n : Nat) (s : EState S E) (toks : List String)
+    (hn : n ≥ toks.length + 1) (site : String) :
+    parseExprLoop P B inputs defaults n s toks ≠ .error (.internal site) :=
+  parseExprLoop_no_internal P B hB inputs defaults site n s toks (by omega)
+
+/-- The entry point `parseExprToks` uses fuel `toks.length + 1`, which suffices. -/
+theorem C17_parseExprToks_no_internal' {S E : Type} (P : PLang) (B : Builder S E)
+    (hB : BuilderTotal B) (inputs : List E) (st0 : S) (toks : List String) (site : String) :
+    parseExprToks P B inputs st0 toks ≠ .error (.internal site) :=
+  parseExprToks_no_internal P B hB inputs st0 toks site
+
+/-- The free builder (structure only) never fails internally. -/
+theorem C17_freeBuilder_total (opNames : List String) : BuilderTotal (freeBuilder opNames) :=
+  freeBuilder_total opNames
+
+/-- The expression parser over the free builder never ends in an internal error. -/
+theorem C17_parseExprToks_no_internal (P : PLang) (opNames : List String) (inputs : List PExpr)
+    (st0 : FreeState) (toks : List String) (site : String) :
+    parseExprToks P (freeBuilder opNames) inputs st0 toks ≠ .error (.internal site) :=
+  parseExprToks_no_internal P (freeBuilder opNames) (freeBuilder_total opNames) inputs st0 toks site
+
+/-- the hypotheses of `C17_parseExpr_no_internal` are satisfiable: free builder over two operator
+names, six tokens, fuel seven -/
+example : BuilderTotal (freeBuilder ["f", "g"]) ∧
+    (7 : Nat) ≥ ["f", "(", "g", "-", ")", ":"].length + 1 :=
+  ⟨freeBuilder_total _, by decide⟩
+
+/-- an expression with an annotation that parses: `f (g -) : F(A)` -/
+example : parseExprToks exP (freeBuilder ["f", "g"]) [] {} ["f", "(", "g", "-", ")", ":", "F", "(", "A", ")"]
+    = .ok ({ nsrc := 1, nvars := 0, anns := [.app 6 [.app 5 []]] },
+           .ann (.app (.op "f") (.app (.op "g") (.src 0))) (.app 6 [.app 5 []])) := by rfl
+
+/-- an unbalanced closing bracket gives `BracketMismatch` -/
+example : parseExprToks exP (freeBuilder ["f", "g"]) [] {} ["f", ")", "g"]
+    = .error .bracketMismatch := by rfl
+
+/-- the free builder's `mkOp` does fail, with a declared error -/
+example : parseExprToks exP (freeBuilder ["f", "g"]) [] {} ["f", "h"]
+    = .error (.undefinedToken "h") := by rfl
+
+/-- `BuilderTotal` is needed: a builder whose `mkApp` fails internally makes the parser do so -/
+example : parseExprToks exP
+    { freeBuilder ["f", "g"] with mkApp := fun _ _ _ => .error (.internal "boom") } [] {} ["f", "g"]
+    = .error (.internal "boom") := by rfl
+
+/-! ## 4. fuel is an artefact of the model -/
+
+/-- Any two amounts of fuel above the number of tokens give the same result. -/
+theorem C17_parseExpr_fuel_irrelevant {S E : Type} (P : PLang) (B : Builder S E)
+    (inputs : List E) (defaults : Bool) (n m : Nat) (s : EState S E) (toks : List String)
+    (hn : n ≥ toks.length + 1) (hm : m ≥ toks.length + 1) :
+    parseExprLoop P B inputs defaults n s toks = parseExprLoop P B inputs defaults m s toks :=
+  parseExprLoop_fuel P B inputs defaults n m s toks (by omega) (by omega)
+
+/-- the bound is sharp: with fuel equal to the number of tokens the model runs out of fuel -/
+example : (parseExprLoop exP (freeBuilder ["f", "g"]) [] false 3 { st := {} } ["f", "g", "f"]).toOption.isNone
+    = true := by rfl
+
+/-- … and with one more it does not -/
+example : (parseExprLoop exP (freeBuilder ["f", "g"]) [] false 4 { st := {} } ["f", "g", "f"]).toOption.isSome
+    = true := by rfl
+
 end Tfv.C17
